@@ -122,6 +122,31 @@ def scan_runs(p):
     return mk('scan_runs', ints('v', nsym), pre, body)
 
 
+def scan_many_keys(p):
+    """K groups live at once under group_by (K crosses table growth steps 8 / 16 / 64 / 128): every group gets an item as it is created - the state tables grow
+    while earlier groups hold accumulators - then groups 0, 1 and K-1 get further, symbolic, items: every group's outputs are the fold of its own items"""
+    f, mkseed, term, snap = ACCS[p['acc']]
+    K = p['k']
+
+    def body(a):
+        v0, v1, v2 = a
+        items = [(0, v0)] + [(k, k) for k in range(1, K)] + [(0, v1), (K - 1, v2), (1, v0), (K // 2, 3)]
+        seed = mkseed() if p['seedkind'] == 'value' else mkseed
+        tail = []
+        inner = [rs.ops.map(lambda i: i[1]), rs.ops.scan(f, seed), D.tap(tail, snap)]
+        err = []
+        D.src(items).pipe(rs.state.with_memory_store([rs.ops.group_by(lambda i: i[0], inner)])).subscribe(on_error=lambda e: err.append(repr(e)))
+        outs, ok = D.lifetimes(tail)
+        if err or not ok or len(outs) != K:
+            return fail(keys=K, err=err, wellformed=ok, groups_seen=len(outs))
+        for k in range(K):
+            exp = fold([v for kk, v in items if kk == k], f, mkseed, False, None, snap)
+            if outs[k] != exp:
+                return fail(keys=K, key=k, key_items=[v for kk, v in items if kk == k], observed=outs[k], expected=exp)
+        return True
+    return mk('scan_many_keys', ints('v', 3), ['-2**40 <= v%d <= 2**40' % i for i in range(3)], body)
+
+
 def scan_step(p):
     """one event on scan_mux from an arbitrary stored accumulator (inductive step:
     covers keys of any length).  params: acc, reduce, term, event next|complete"""
@@ -294,7 +319,7 @@ def dist_update(p):
     return mk('dist_update', ints('v', n), pre, body)
 
 
-FAMILIES = {'scan_runs': scan_runs, 'scan_step': scan_step, 'derived': derived, 'dist_update': dist_update}
+FAMILIES = {'scan_many_keys': scan_many_keys, 'scan_runs': scan_runs, 'scan_step': scan_step, 'derived': derived, 'dist_update': dist_update}
 
 
 def obligations(tier, seed):
@@ -324,6 +349,10 @@ def obligations(tier, seed):
             for ctx, n in (('roll11', 20), ('roll21', 36)) if q else (('roll11', 20), ('roll21', 36), ('roll11', 70), ('roll21', 140), ('roll11', 300)):
                 obs.append(Ob(PROP, 'scan_runs', dict(acc=acc, seedkind=seedkind, reduce=False, term=False, ctx=ctx, n=n, nsym=2), budget=b * 2, group='scan_runs:many lifetimes',
                               bound=dict(items=n, lifetimes=n, acc=acc, seed=seedkind, values='2 symbolic items, the rest concrete')))
+    for acc in ('add', 'app', 'pair'):
+        for seedkind in (('value',) if acc == 'add' else ('value', 'factory')):
+            for k in ((9, 17, 65) if q else (9, 10, 17, 33, 65, 129, 257)):
+                obs.append(Ob(PROP, 'scan_many_keys', dict(acc=acc, seedkind=seedkind, k=k), budget=b * 2, group='scan:many live keys', bound=dict(live_keys=k, acc=acc, seed=seedkind, symbolic_items=3)))
     for op in DERIVED:
         for mode in ('plain', 'mux'):
             for n in ((0, 3) if q else (0, 1, 4, 5)):
